@@ -130,7 +130,58 @@ structure Layout where
   long : Bool
   sharedOff : Nat
   dataOff : Nat
-  deriving Repr
+  deriving Repr, DecidableEq
+
+/-- byte size of the offsets array: `(num_glyphs + 1) * size_of::<OffsetType>()` -/
+def arrSize (nout : Nat) (long : Bool) : Nat := (nout + 1) * (if long then 4 else 2)
+
+/-- `has_shared_tuples`: `shared_tuple_count() != 0 && !shared_tuples_offset().is_null()` -/
+def hasShared (cnt soff : Nat) : Bool := decide (cnt ≠ 0 ∧ soff ≠ 0)
+
+/-- the new sharedTuplesOffset: 0 only for a non-zero count with a null source offset -/
+def sharedOffOf (cnt soff arr : Nat) : Nat := if cnt ≠ 0 ∧ hasShared cnt soff = false then 0 else 20 + arr
+
+/-- `shared_tuples_size` -/
+def sharedSizeOf (axis cnt soff : Nat) : Nat := if hasShared cnt soff then 2 * axis * cnt else 0
+
+/-- the plan shape the model covers: at most 0xFFFF output glyphs, one slot per entry, new ids ascending
+and below `num_output_glyphs` -/
+def planOk (inp : GvarIn) : Bool :=
+  decide (inp.nout ≤ 0xFFFF) && decide (inp.n2o.length = inp.slots.length) &&
+    ascBelow inp.nout (inp.n2o.map (·.1)) 0
+
+/-- glyphCount (`.min(0xFFFF)`, the identity under `planOk`), the format flag
+(`subset_data_size > 0x1FFFE`), the two offsets -/
+def layoutOf (inp : GvarIn) (axis cnt soff : Nat) : Layout :=
+  let long := decide (dataSize (keptEntries inp) > 0x1FFFE)
+  let arr := arrSize inp.nout long
+  { numGlyphs := inp.nout, long, sharedOff := sharedOffOf cnt soff arr,
+    dataOff := 20 + arr + sharedSizeOf axis cnt soff }
+
+/-- the emitted table: 8 copied header bytes, sharedTuplesOffset, glyphCount, flags,
+glyphVariationDataArrayOffset, offsets array, shared tuples, glyph variation data -/
+def assemble (h8 : Bytes) (lay : Layout) (nout : Nat) (ks : List (Nat × Bytes)) (shared : Bytes) : Bytes :=
+  h8 ++ be32 lay.sharedOff ++ be16 lay.numGlyphs ++ be16 (if lay.long then 1 else 0) ++ be32 lay.dataOff ++
+    encodeOffsets (!lay.long) (offsets (!lay.long) nout ks) ++ shared ++ dataGo (!lay.long) ks 0
+
+/-- the bytes `embed_bytes(shared_tuples_data)` copies (`none`: the `unwrap()` panics) -/
+def sharedSource (inp : GvarIn) (cnt soff : Nat) : Option Bytes :=
+  if hasShared cnt soff then inp.sharedSlice else some []
+
+/-- `Gvar::subset` after the header fields have been read -/
+def emit (inp : GvarIn) (h8 : Bytes) (axis cnt soff : Nat) : Except String (Layout × Bytes) :=
+  if planOk inp = false then .error "unmodelled" else
+  if dataSize (keptEntries inp) ≥ 4294967296 then .error "trap" else
+  if (layoutOf inp axis cnt soff).dataOff ≥ 4294967296 then .error "dropped" else
+  if 20 + arrSize inp.nout (layoutOf inp axis cnt soff).long > room inp.tableLen inp.srcGlyphs inp.nout then
+    .error "err" else
+  match sharedSource inp cnt soff with
+  | none => .error "trap"
+  | some shared =>
+    if shared.length ≠ sharedSizeOf axis cnt soff then .error "unmodelled" else
+    if (assemble h8 (layoutOf inp axis cnt soff) inp.nout (keptEntries inp) shared).length >
+        room inp.tableLen inp.srcGlyphs inp.nout then .error "err" else
+    .ok (layoutOf inp axis cnt soff, assemble h8 (layoutOf inp axis cnt soff) inp.nout (keptEntries inp) shared)
 
 /-- `Gvar::subset`.  Errors: `"trap"` a panic (u32 `sum()` overflow in the overflow-checked profile, the
 `unwrap()` of the shared tuple slice), `"dropped"` the `u32::try_from` failure (`subset()` in lib.rs then omits
@@ -140,33 +191,8 @@ the table), `"err"` out of serializer room for every buffer size tried (`subset_
 def subsetGvar (inp : GvarIn) : Except String (Layout × Bytes) :=
   match inp.header with
   | [v0, v1, v2, v3, a0, a1, c0, c1, o0, o1, o2, o3] =>
-    let axis := a0 * 256 + a1
-    let cnt := c0 * 256 + c1
-    let soff := o0 * 16777216 + o1 * 65536 + o2 * 256 + o3
-    if inp.nout > 0xFFFF ∨ inp.n2o.length ≠ inp.slots.length ∨ ¬ ascBelow inp.nout (inp.n2o.map (·.1)) 0 then
-      .error "unmodelled" else
-    let numGlyphs := inp.nout            -- `.min(0xFFFF) as u16`
-    let ks := keptEntries inp
-    let size := dataSize ks
-    if size ≥ 4294967296 then .error "trap" else
-    let long := decide (size > 0x1FFFE)
-    let arr := (numGlyphs + 1) * (if long then 4 else 2)
-    let hasShared := decide (cnt ≠ 0 ∧ soff ≠ 0)
-    let sharedOff := if cnt ≠ 0 ∧ ¬ hasShared then 0 else 20 + arr
-    let sharedSize := if hasShared then 2 * axis * cnt else 0
-    let dataOff := 20 + arr + sharedSize
-    if dataOff ≥ 4294967296 then .error "dropped" else
-    let rm := room inp.tableLen inp.srcGlyphs inp.nout
-    if 20 + arr > rm then .error "err" else
-    match (if hasShared then inp.sharedSlice else some []) with
-    | none => .error "trap"
-    | some shared =>
-      if shared.length ≠ sharedSize then .error "unmodelled" else
-      let out := [v0, v1, v2, v3, a0, a1, c0, c1] ++ be32 sharedOff ++ be16 numGlyphs ++
-        be16 (if long then 1 else 0) ++ be32 dataOff ++
-        encodeOffsets (!long) (offsets (!long) inp.nout ks) ++ shared ++ dataGo (!long) ks 0
-      if out.length > rm then .error "err" else
-      .ok ({ numGlyphs, long, sharedOff, dataOff }, out)
+    emit inp [v0, v1, v2, v3, a0, a1, c0, c1] (a0 * 256 + a1) (c0 * 256 + c1)
+      (o0 * 16777216 + o1 * 65536 + o2 * 256 + o3)
   | _ => .error "unmodelled"
 
 /-! ## the reader (read-fonts) -/
@@ -191,7 +217,7 @@ structure Reader where
   dao : Nat
   /-- `glyph_variation_data_offsets()[i].get()` -/
   offs : List Nat
-  deriving Repr
+  deriving Repr, DecidableEq
 
 /-- `Gvar::read`: 20 header bytes and `(glyphCount + 1)` offsets of 2 or 4 bytes (flags bit 0) must be
 present; nothing else is validated -/
